@@ -1714,7 +1714,7 @@ class SourceFinder(object):
                 xmax = max(xmax, min(shape[0], x + xwidth // 2 + 1))
                 ymax = max(ymax, min(shape[1], y + ywidth // 2 + 1))
 
-                s_lims = [0.8 * min(sx, pixbeam.b * FWHM2CC),
+                s_lims = [0.8 * min(sx, sy, pixbeam.b * FWHM2CC),
                           max(sy, sx) * 1.25]
 
                 # Set up the parameters for the fit, including constraints
